@@ -274,8 +274,9 @@ func tryBestToDistributeEvenly(requests corev1.ResourceList, totalAvailable map[
 		sortedNUMANodes := make([]int, len(numaNodes))
 		copy(sortedNUMANodes, numaNodes)
 		sort.Slice(sortedNUMANodes, func(i, j int) bool {
-			iAvailableOfResource := totalAvailable[i][corev1.ResourceName(resourceName)]
-			return (&iAvailableOfResource).Cmp(totalAvailable[j][corev1.ResourceName(resourceName)]) < 0
+			// i and j are positions in sortedNUMANodes; the free amounts are keyed by NUMA node id
+			iAvailableOfResource := totalAvailable[sortedNUMANodes[i]][corev1.ResourceName(resourceName)]
+			return (&iAvailableOfResource).Cmp(totalAvailable[sortedNUMANodes[j]][corev1.ResourceName(resourceName)]) < 0
 		})
 		sortedNUMANodeByResource[corev1.ResourceName(resourceName)] = sortedNUMANodes
 	}
